@@ -28,3 +28,12 @@ func init() {
 		Mutant{Name: "c09-softdelete-marker-not-stored", Property: "C09", Rule: "C09.marker", Edits: []Edit{{"soft_delete.go", "\t\tstmt.Clauses[\"soft_delete_enabled\"] = clause.Clause{}\n", ""}}},
 	)
 }
+
+func init() {
+	addMutants(
+		Mutant{Name: "c09-delete-guard-before-key-conditions", Property: "C09", Rule: "C09.order", Edits: []Edit{
+			{"callbacks/delete.go", "\t\tcheckMissingWhereConditions(db)\n\n\t\tif !db.DryRun && db.Error == nil {\n\t\t\tok, mode := hasReturning(db, supportReturning)", "\t\tif !db.DryRun && db.Error == nil {\n\t\t\tok, mode := hasReturning(db, supportReturning)"},
+			{"callbacks/delete.go", "\t\tif db.Statement.SQL.Len() == 0 {\n\t\t\tdb.Statement.SQL.Grow(100)", "\t\tcheckMissingWhereConditions(db)\n\n\t\tif db.Statement.SQL.Len() == 0 {\n\t\t\tdb.Statement.SQL.Grow(100)"}},
+			Note: "db.Delete(&user) with a primary key is rejected: the guard runs before the key condition is added"},
+	)
+}
